@@ -128,7 +128,7 @@ PROPS = {
         jobs=lambda tier: [dict(build=b, params={"cases": "6000" if tier == "quick" else "120000"}, shards=2 if tier == "quick" else 8) for b in ("os", "inproc")],
         meta=M("exploration",
                "property-based testing with scripted Serialize/Deserialize implementations (generated failure points and nested sends) against a reference model of per-message attachments",
-               "A harness Serialize implementation driven by a generated script visits endpoints/regions, performs nested sends (depth <=3, attachments before/inside/after), fails at generated points or ignores nested failures; a Deserialize hook receives on another channel in the middle of decoding. Every message whose send returned Ok must arrive with exactly its own attachments in the right positions (identity probed); endpoints referenced only by a failed value must disconnect/refuse as soon as the program's handles are gone; plain follow-up traffic on the same thread must carry exactly its own attachments; the descriptor table must return to its baseline.",
+               "A harness Serialize implementation driven by a generated script visits endpoints/regions, performs nested sends (depth <=3, attachments before/inside/after), fails at generated points or ignores nested failures; a Deserialize hook receives on another channel in the middle of decoding. Every message whose send returned Ok must arrive with exactly its own attachments in the right positions (identity probed); endpoints referenced only by a failed value must disconnect/refuse as soon as the program's handles are gone; plain follow-up traffic on the same thread must carry exactly its own attachments; the descriptor table must return to its baseline. A receive issued inside a deserialisation gets a valid message with attachments of its own, or an undecodable one (no attachments, bytes referring to an attachment number of the enclosing message): the latter must fail without touching the enclosing message.",
                "The scripted value encodes byte-for-byte like Node::List (variant indices verified at start-up); each case runs on a fresh thread because the library's attachment lists are per-thread.",
                "cases = generated scripts (0..7 steps, recursive nesting <=3) x target closed or not x 0..2 follow-up sends x receive-inside-deserialise; non-trivial = a failure after >=1 visited attachment, or nesting with attachments on both levels; distinct = distinct (build, canonical JSON)"),
     ),
@@ -136,7 +136,7 @@ PROPS = {
         jobs=lambda tier: [dict(build="os", params=dict({"sndbuf": "8192"} if sb else {}, cases="1500" if tier == "quick" else "30000"), shards=8) for sb in (8192, 0)],
         meta=M("fault_enumeration",
                "exhaustive fault enumeration: all 2^10 ENOBUFS patterns over the first 10 transmission attempts x 5 message shapes x 2 attachment modes x 2 send-buffer sizes, injected at the interposed libc boundary; thorough adds generated 64-attempt masks and lengths (proptest)",
-               "Every ENOBUFS pattern over the first 10 transmission attempts of one send is injected (the interposed sendmsg/send of the sending thread fails without transmitting) for each listed message shape with and without attachments and for two reported send-buffer sizes: 20 480 sends, swept completely in both tiers. Ok => exact payload + probed attachments + intact follow-on message; Err => no complete-looking message, at most one receiver-side error, follow-on intact; no receive saw MSG_TRUNC; descriptor count unchanged.",
+               "Every ENOBUFS pattern over the first 10 transmission attempts of one send is injected (the interposed sendmsg/send of the sending thread fails without transmitting) for each listed message shape with and without attachments and for two reported send-buffer sizes: 20 480 sends, swept completely in both tiers. Ok => exact payload + probed attachments + intact follow-on message; Err => no complete-looking message, at most one receiver-side error, follow-on intact; no receive saw MSG_TRUNC; descriptor count unchanged. Every mask x shape also runs at the platform level (OsIpcSender::send(bytes, channels, regions)), where the received lists of channels and regions must equal the sent ones exactly, with a second thread allocating and releasing descriptor numbers throughout the send.",
                "ENOBUFS is simulated at the libc boundary, not provoked in the kernel; the receiver runs concurrently on another thread.",
                "cases = (ENOBUFS mask, shape, attachments) enumerated completely, plus generated masks over 64 attempts with generated lengths in the thorough tier; non-trivial = mask != 0 and the send still succeeded after at least one injected failure, or the send failed after at least one packet had been transmitted; distinct = distinct (params, canonical JSON)",
                exhaustive="all 2^10 masks x {<=2000 B, >2000 B one packet, 2, 3, 6 packets} x {no attachments, sender+region+receiver} x reported SO_SNDBUF in {8192, system default}"),
@@ -187,7 +187,7 @@ PROPS = {
         + ([dict(build=b, params={"cases": "60", "big": "1", "max_exp": "25"}, shards=2) for b in ("os", "memfd")] if tier == "thorough" else []),
         meta=M("exploration",
                "property-based round-trip testing of shared-memory regions (enumerated boundary lengths + generated lengths/contents/clone patterns), receivers in the same and in a forked process",
-               "Regions are created from seeded byte strings or from a fill byte for lengths enumerated around 0, 1, page +/-1, 2 pages +/-1 and generated up to the tier maximum, cloned 0..3 times (a clone or the original is what gets sent), 1..8 per message in generated order mixed with data, received in the same process or in a forked child that never held the sender's handles; contents and lengths are compared at creation, in every clone, after receipt, after the sender's copies and the carrying channel were dropped, and after a second hop; order is preserved.",
+               "Regions are created from seeded byte strings or from a fill byte for lengths enumerated around 0, 1, page +/-1, 2 pages +/-1 and generated up to the tier maximum, cloned 0..3 times (a clone or the original is what gets sent), 1..8 per message in generated order mixed with data, received in the same process or in a forked child that never held the sender's handles; contents and lengths are compared at creation, in every clone, after receipt, after the sender's copies and the carrying channel were dropped, and after a second hop; order is preserved. Further variants: two regions with equal contents and the very same region referenced twice in one message; the first look at received regions taken by 2..6 threads at once; new regions of the same lengths created right after the originals were dropped (a recycled backing object would be overwritten); carrying messages of several packets; lengths beyond 2 MiB that are not multiples of it.",
                "Comparison is byte-for-byte (checksums only in reports). The forked receiver reports over a pipe.",
                "cases = (1..8 regions each with length, contents, clone count, which copy is sent; padding; receiver process; second hop); non-trivial = some length is not a multiple of the page size, or >=2 regions, or a clone was sent; distinct = distinct (build, canonical JSON)",
                exhaustive="lengths {0,1,2,page-1,page,page+1,2page-1,2page,2page+1,3page+7} x {stream, fill 0, fill 0xA5} x {same process, forked receiver}"),
@@ -206,7 +206,7 @@ PROPS = {
                            dict(build="inproc", params={"sndbuf": "4096", "cases": "1000" if tier == "quick" else "20000"}, shards=4 if tier == "quick" else 8)],
         meta=M("exploration",
                "stateful property testing of receiver sets: deterministic generated interleavings of send/add/drop/select and free-running sender threads, EINTR injected at the interposed epoll_wait, history invariant as oracle",
-               "Sets of 1..24 (quick) / 1..64 (thorough) members with per-member scripts of small and multi-packet messages, members added before, between and after their traffic, senders dropped early or at the end. Regime D interleaves all actions on one thread in a generated order and calls select only while the model says an event of an added member is pending (so a call that does not return is a lost event; more ready members than the event buffer, traffic queued before add, and closure together with data are constructed on purpose). Regime F runs 1..8 sender threads against the selecting thread. EINTR is injected into generated epoll_wait calls. The concatenated select results must give every member its messages once, in order, under the id add returned, and exactly one ChannelClosed after the last message and after the sender drop began; ids of live members are distinct.",
+               "Sets of 1..24 (quick) / 1..64 (thorough) members with per-member scripts of small and multi-packet messages, members added before, between and after their traffic, senders dropped early or at the end. Regime D interleaves all actions on one thread in a generated order and calls select only while the model says an event of an added member is pending (so a call that does not return is a lost event; more ready members than the event buffer, traffic queued before add, and closure together with data are constructed on purpose). Regime F runs 1..8 sender threads against the selecting thread. EINTR is injected into generated epoll_wait calls. The concatenated select results must give every member its messages once, in order, under the id add returned, and exactly one ChannelClosed after the last message and after the sender drop began; ids of live members are distinct. Members join through add or through add_opaque (all typed, all opaque or alternating per case).",
                "Kernel scheduling inside epoll/mio is not controlled in regime F (repeated sampling with jitter); blocked = asleep in one syscall at two samples, or spinning without returning (CPU time accrues).",
                "cases = (member scripts, add points, drop points, thread assignment, regime, shuffle, select cadence, EINTR mask); non-trivial = more than 10 members ready at one select, or a multi-packet message beside small ones, or an add after traffic, or >=1 injected EINTR; distinct = distinct (build, canonical JSON)"),
     ),
@@ -223,7 +223,7 @@ PROPS = {
         jobs=lambda tier: [dict(build=b, params={"cases": "1600" if tier == "quick" else "24000"}, shards=8 if tier == "quick" else 16) for b in ("os", "inproc")],
         meta=M("exploration",
                "generated router stop scenarios (shutdown from several threads racing with add_route, or proxy drop, with traffic in flight) judged by logical-clock stamps of callback entries, drop guards and call returns; process-wide panic hook",
-               "Each case creates a fresh RouterProxy with 0..16 live routes (callback and both crossbeam kinds, plus a sentinel callback route) and optional traffic in flight, then stops it by shutdown() from 1..4 threads concurrently with add_route from 0..4 others, or by dropping the proxy; afterwards it sends on the old routes, offers a route again, calls shutdown again and uses an independent second router. No callback entry may be stamped after shutdown returned; at that moment every registered callback's drop guard must have fired; crossbeam consumers must observe disconnection; routes offered after shutdown must be dropped inside add_route without ever being invoked; after a proxy drop all guards must fire (hang rule); no thread may panic; every call must return.",
+               "Each case creates a fresh RouterProxy with 0..16 live routes (callback and both crossbeam kinds, plus a sentinel callback route) and optional traffic in flight, then stops it by shutdown() from 1..4 threads concurrently with add_route from 0..4 others, or by dropping the proxy; afterwards it sends on the old routes, offers a route again, calls shutdown again and uses an independent second router. No callback entry may be stamped after shutdown returned; at that moment every registered callback's drop guard must have fired; crossbeam consumers must observe disconnection; routes offered after shutdown must be dropped inside add_route without ever being invoked; after a proxy drop all guards must fire (hang rule); no thread may panic; every call must return. After the stop the receivers of the old routes must be released (sends on them start to fail); in some cases one callback invocation takes 0.6-0.9 s so that the router is stopped while busy inside a callback; a router that never had a route is shut down and then offered routes.",
                "Races between shutdown and add_route are sampled, not enumerated (the proxy mutex serialises them, which is what the stamps rely on).",
                "cases = (routes, stop mode and number of shutdown threads, number of concurrent add_route threads, follow-up activity, jitter); non-trivial = >=1 route alive with traffic in flight at the stop, or >=2 threads racing; distinct = distinct (build, canonical JSON)"),
     ),
@@ -232,7 +232,7 @@ PROPS = {
                            dict(build="async-inproc", params={"sndbuf": "4096", "cases": "800" if tier == "quick" else "16000"}, shards=4 if tier == "quick" else 8)],
         meta=M("exploration",
                "generated concurrent to_stream conversions and traffic against the real async routing thread, consumed by a manual poll loop with a counting waker, block_on(collect) and a LocalPool; per-stream item logs as history oracle",
-               "1..32 streams are created from 1..8 threads with 0..50 small/multi-packet messages per channel, a generated prefix queued before to_stream() and the rest sent afterwards with jitter, senders dropped at the end; 30% of the cases convert all receivers while idle in one burst and then require a single message per creator thread to be yielded before any other traffic exists. Consumers are a manual poll loop with a counting waker (a Pending must be followed by a wake-up once all senders finished), futures::executor::block_on(stream.collect()) on separate threads, and one LocalPool driving several streams. Each stream must yield exactly its own messages once, in order and whole, and end-of-stream only after its sender's drop began and after all items; all consumers must finish (hang rule).",
+               "1..32 streams are created from 1..8 threads with 0..50 small/multi-packet messages per channel, a generated prefix queued before to_stream() and the rest sent afterwards with jitter, senders dropped at the end; 30% of the cases convert all receivers while idle in one burst and then require a single message per creator thread to be yielded before any other traffic exists. Consumers are a manual poll loop with a counting waker (a Pending must be followed by a wake-up once all senders finished), futures::executor::block_on(stream.collect()) on separate threads, and one LocalPool driving several streams. Each stream must yield exactly its own messages once, in order and whole, and end-of-stream only after its sender's drop began and after all items; all consumers must finish (hang rule). A second job runs the same cases on the in-process transport (async + force-inprocess).",
                "Scheduling of the routing thread is not controlled (repeated sampling with jitter and bursts).",
                "cases = (stream plans with message script, prefix length, creating thread, consumer kind, jitter; idle-burst probe); non-trivial = >=2 streams created from different threads with both pre-queued and later messages, or an idle-burst probe over >=2 threads; distinct = distinct canonical JSON"),
     ),
@@ -252,7 +252,7 @@ PROPS = {
                            dict(build="inproc", params={"sndbuf": "4096", "cases": "800" if tier == "quick" else "12000"}, shards=8)],
         meta=M("exploration",
                "generated scripts of recv / try_recv / try_recv_timeout(d) against a commanded sender thread (send or drop before / during / after each call), judged causally from logical-clock stamps plus the monotonic clock in the two sound directions",
-               "Scripts of up to 30 steps mix the three receive variants with d in {0, 1 ns, 999 us, 1 ms, 1.5 ms, 5-50 ms, 100-300 ms, 1-2 s (thorough)} while a sender thread sends small or multi-packet messages or drops its handle before the call, a generated delay after the call started, or not at all. try_recv must return the next message if its send had returned before the call, Empty if nothing was sent and a sender lives, Disconnected if the drop had returned and nothing is queued (racing cases accept any answer consistent with some instant of the call). try_recv_timeout reporting Empty must have lasted at least floor(d) ms and nothing may have completed before start + floor(d) ms; a blocking recv issued after any Empty must block and return its message. Everything outstanding is delivered in order at the end, then Disconnected.",
+               "Scripts of up to 30 steps mix the three receive variants with d in {0, 1 ns, 999 us, 1 ms, 1.5 ms, 5-50 ms, 100-300 ms, 1-2 s (thorough)} while a sender thread sends small or multi-packet messages or drops its handle before the call, a generated delay after the call started, or not at all. try_recv must return the next message if its send had returned before the call, Empty if nothing was sent and a sender lives, Disconnected if the drop had returned and nothing is queued (racing cases accept any answer consistent with some instant of the call). try_recv_timeout reporting Empty must have lasted at least floor(d) ms and nothing may have completed before start + floor(d) ms; a blocking recv issued after any Empty must block and return its message. Everything outstanding is delivered in order at the end, then Disconnected. The receiver under test is a plain one, the one returned by a one-shot server's accept, or one that was polled and then transferred through another channel; per origin one blocking recv is issued on the idle channel 10.7 s (quick) / 31 s (thorough) before its only message is sent and must wait for it; timed receives include Duration::MAX (issued only when the script makes them return).",
                "No check asserts that anything is fast; the clock is only used for 'lasted at least' and 'completed before the deadline'. A blocking recv is issued only when the script guarantees a message or a drop.",
                "cases = (steps of (operation, sender action), typed or bytes channel); non-trivial = a blocking recv after an Empty, or a send/drop during a timed wait of >=5 ms, or a sub-millisecond timeout; distinct = distinct (build, params, canonical JSON)"),
     ),
